@@ -41,61 +41,28 @@ Proof.
   rewrite fix_last_cons2, IH. reflexivity.
 Qed.
 
-Section Line.
-Variable TL : list (N * (String.string * list okind)).
-Variable print_f64 : N -> text.
-Variable parse_f64 : text -> option (N * text).
-Variable good : N -> bool.
+Definition lbl_idx (L : list N) (t : N) : N := match index_of t L 0 with Some i => i | None => 0 end.
 
-Hypothesis Hnames : names_ok TL = true.
-Hypothesis Hcmt : comment_ops_ok TL = true.
-(* the oracle hypothesis: what the theorems need of printf("%.17g") / strtod for the float patterns called good *)
-Definition f64_text_ok (v : N) : Prop :=
-  Forall (fun c => plain_char c = true) (print_f64 v) /\ print_f64 v <> [] /\ hd 0 (print_f64 v) <> 58 /\
-  forall rest, stops rest -> parse_f64 (print_f64 v ++ rest) = Some (v, rest).
-Hypothesis Horacle : forall v, good v = true -> f64_text_ok v.
-
-Let T : table_t := table_of TL.
-Notation asm_operand := (asm_operand parse_f64).
-Notation asm_operands := (asm_operands parse_f64).
-Notation asm_instruction := (asm_instruction TL parse_f64).
-Notation process_line := (process_line TL parse_f64).
-Notation fmt_operand := (fmt_operand print_f64).
-Notation fmt_operands := (fmt_operands print_f64).
-
-(* ---------------------------------------------------------------- the table *)
-Lemma opcode_by_name_in l : distinct_names l = true -> forall o s ks, In (o, (s, ks)) l ->
-  opcode_by_name l (B s) = Some (o, ks).
+Lemma mem_index t : forall L i, mem_N t L = true -> exists j, index_of t L i = Some j.
 Proof.
-  induction l as [|[o' [s' ks']] l IH]; intros Hd o s ks Hin; [destruct Hin|].
-  cbn [distinct_names] in Hd. apply andb_true_iff in Hd. destruct Hd as [Hn Hd]. apply negb_true_iff in Hn.
-  cbn [opcode_by_name]. destruct Hin as [E|Hin].
-  - inversion E; subst. rewrite bytes_eqb_refl. reflexivity.
-  - destruct (bytes_eqb (B s') (B s)) eqn:Eb; [|apply IH; assumption].
-    exfalso. rewrite <- not_true_iff_false in Hn. apply Hn. apply existsb_exists.
-    exists (o, (s, ks)). split; [exact Hin|]. cbn [fst snd]. apply bytes_eqb_eq in Eb. rewrite Eb. apply bytes_eqb_refl.
+  induction L as [|y L IH]; intros i H; [discriminate|]. cbn [mem_N index_of] in *.
+  destruct (t =? y); [eexists; reflexivity|]. apply IH. exact H.
 Qed.
 
-Lemma name_ok_in o s ks : In (o, (s, ks)) TL -> name_ok (o, (s, ks)) = true.
+Lemma index_of_bound t : forall L i j, index_of t L i = Some j -> j < i + lenN L.
 Proof.
-  intros Hin. unfold names_ok in Hnames. apply andb_true_iff in Hnames. destruct Hnames as [H _].
-  rewrite forallb_forall in H. apply H, Hin.
+  induction L as [|y L IH]; intros i j H; [discriminate|]. cbn [index_of] in H. rewrite lenN_cons.
+  destruct (t =? y); [inversion H; lia|]. apply IH in H. lia.
 Qed.
-
-Lemma table_entry o ks : T o = Some ks -> exists s, lookup TL o = Some (s, ks) /\ name_of TL o = Some s.
+Lemma index_of_ge t : forall L i j, index_of t L i = Some j -> i <= j.
 Proof.
-  unfold T, table_of, name_of. destruct (lookup TL o) as [[s ks']|] eqn:E; [|discriminate].
-  intros H; inversion H; subst. exists s. split; reflexivity.
+  induction L as [|y L IH]; intros i j H; [discriminate|]. cbn [index_of] in H.
+  destruct (t =? y); [inversion H; lia|]. apply IH in H. lia.
 Qed.
+Lemma lbl_idx_bound L t : lbl_idx L t < 1 + lenN L.
+Proof. unfold lbl_idx. destruct (index_of t L 0) eqn:E; [apply index_of_bound in E; lia|lia]. Qed.
 
-Lemma comment_op_kinds o ks : T o = Some ks -> comment_op o = true -> ks = [KU32].
-Proof.
-  intros HT Hc. destruct (table_entry o ks HT) as [s [El _]]. apply lookup_in in El.
-  unfold comment_ops_ok in Hcmt. rewrite forallb_forall in Hcmt. specialize (Hcmt _ El). cbn [fst snd] in Hcmt.
-  rewrite Hc in Hcmt. destruct ks as [|[] [|? ?]]; try discriminate; reflexivity.
-Qed.
 
-(* ---------------------------------------------------------------- character classes *)
 Lemma ident_plain c : is_ident c = true -> plain_char c = true.
 Proof.
   unfold is_ident, is_alpha_, plain_char. intros H.
@@ -153,8 +120,105 @@ Proof. unfold label_name. intros H. inversion H. apply print_dec_inj. assumption
 Lemma label_name_len i : i < 4294967296 -> lenN (label_name i) < 128.
 Proof. intros H. unfold label_name. rewrite lenN_cons. pose proof (print_dec_len i H). lia. Qed.
 
+Definition zenc1 (k : okind) (v : N) : list byte := if okind_eqb k KI32 then [0; 0; 0; 0] else le_bytes (ksize k) v.
+Fixpoint zenc (ks : list okind) (vs : list N) : list byte :=
+  match ks, vs with k :: ks', v :: vs' => zenc1 k v ++ zenc ks' vs' | _, _ => [] end.
+Definition patch1 (L : list N) (cur start off : N) (k : okind) (v : N) : list patch :=
+  if okind_eqb k KI32
+  then [{| p_label := label_name (lbl_idx L (u32 (start + v))); p_code_off := off; p_start := start; p_fn := cur |}]
+  else [].
+Fixpoint mk_patches (L : list N) (cur start off : N) (ks : list okind) (vs : list N) : list patch :=
+  match ks, vs with
+  | k :: ks', v :: vs' => patch1 L cur start off k v ++ mk_patches L cur start (off + N.of_nat (ksize k)) ks' vs'
+  | _, _ => [] end.
+
+Lemma zenc1_len k v : lenN (zenc1 k v) = N.of_nat (ksize k).
+Proof. unfold zenc1, lenN. destruct k; cbn [okind_eqb]; rewrite ?le_bytes_length; reflexivity. Qed.
+
+Lemma parse_unsigned_dec hi v rest : stops rest -> (Z.of_N v <= hi)%Z -> v < 9223372036854775808 ->
+  parse_unsigned hi (32 :: print_dec v ++ rest) = Some (v, rest).
+Proof.
+  intros Hs Hhi Hv. unfold parse_unsigned, parse_range, parse_int64. rewrite skip_ws_sp.
+  pose proof (print_dec_nonempty v) as Ne. pose proof (print_dec_all_digits v) as F.
+  destruct (print_dec v) as [|c r] eqn:E; [congruence|]. inversion F; subst.
+  cbn [app]. rewrite skip_ws_cons by (apply plain_facts, dec_char_plain; assumption).
+  change (c :: r ++ rest) with ((c :: r) ++ rest). rewrite <- E, strtoll_print_dec by assumption.
+  destruct (Z.ltb_spec (Z.of_N v) 0); [lia|]. destruct (Z.ltb_spec hi (Z.of_N v)); [lia|]. cbn [orb]. rewrite N2Z.id. reflexivity.
+Qed.
+
+Lemma pow256 k : 256 ^ N.of_nat (ksize k) = match k with KU8 => 256 | KU16 => 65536 | KU32 | KI32 => 4294967296 | KI64 | KF64 => 18446744073709551616 end.
+Proof. destruct k; reflexivity. Qed.
+
+Lemma count_i32_cons k ks : count_i32 (k :: ks) = (if okind_eqb k KI32 then 1 else 0) + count_i32 ks.
+Proof. unfold count_i32. cbn [filter]. destruct (okind_eqb k KI32); [rewrite lenN_cons|]; lia. Qed.
+Lemma patch1_len L cur start off k v : lenN (patch1 L cur start off k v) = if okind_eqb k KI32 then 1 else 0.
+Proof. unfold patch1. destruct (okind_eqb k KI32); reflexivity. Qed.
+
+Lemma starts_cons_ne c x r : x <> c -> starts c (x :: r) = None.
+Proof. intros H. unfold starts. destruct (N.eqb_spec x c); [contradiction|reflexivity]. Qed.
+
+Definition with_label (st : astate) (idx : N) : astate :=
+  {| a_mod := a_mod st; a_labels := a_labels st ++ [{| l_name := label_name idx; l_off := a_size st; l_fn := a_cur st |}];
+     a_patches := a_patches st; a_in_fn := a_in_fn st; a_cur := a_cur st; a_rcode := a_rcode st; a_size := a_size st |}.
+
+
+Section Line.
+Variable TL : list (N * (String.string * list okind)).
+Variable print_f64 : N -> text.
+Variable parse_f64 : text -> option (N * text).
+Variable good : N -> bool.
+
+Hypothesis Hnames : names_ok TL = true.
+Hypothesis Hcmt : comment_ops_ok TL = true.
+(* the oracle hypothesis: what the theorems need of printf("%.17g") / strtod for the float patterns called good *)
+Definition f64_text_ok (v : N) : Prop :=
+  Forall (fun c => plain_char c = true) (print_f64 v) /\ print_f64 v <> [] /\ hd 0 (print_f64 v) <> 58 /\
+  forall rest, stops rest -> parse_f64 (print_f64 v ++ rest) = Some (v, rest).
+Hypothesis Horacle : forall v, good v = true -> f64_text_ok v.
+Set Default Proof Using "All".
+
+Let T : table_t := table_of TL.
+Notation asm_operand := (asm_operand parse_f64).
+Notation asm_operands := (asm_operands parse_f64).
+Notation asm_instruction := (asm_instruction TL parse_f64).
+Notation process_line := (process_line TL parse_f64).
+Notation fmt_operand := (fmt_operand print_f64).
+Notation fmt_operands := (fmt_operands print_f64).
+
+(* ---------------------------------------------------------------- the table *)
+Lemma opcode_by_name_in l : distinct_names l = true -> forall o s ks, In (o, (s, ks)) l ->
+  opcode_by_name l (B s) = Some (o, ks).
+Proof.
+  induction l as [|[o' [s' ks']] l IH]; intros Hd o s ks Hin; [destruct Hin|].
+  cbn [distinct_names] in Hd. apply andb_true_iff in Hd. destruct Hd as [Hn Hd]. apply negb_true_iff in Hn.
+  cbn [opcode_by_name]. destruct Hin as [E|Hin].
+  - inversion E; subst. rewrite bytes_eqb_refl. reflexivity.
+  - destruct (bytes_eqb (B s') (B s)) eqn:Eb; [|apply IH; assumption].
+    exfalso. rewrite <- not_true_iff_false in Hn. apply Hn. apply existsb_exists.
+    exists (o, (s, ks)). split; [exact Hin|]. cbn [fst snd]. apply bytes_eqb_eq in Eb. rewrite Eb. apply bytes_eqb_refl.
+Qed.
+
+Lemma name_ok_in o s ks : In (o, (s, ks)) TL -> name_ok (o, (s, ks)) = true.
+Proof.
+  intros Hin. unfold names_ok in Hnames. apply andb_true_iff in Hnames. destruct Hnames as [H _].
+  rewrite forallb_forall in H. apply H, Hin.
+Qed.
+
+Lemma table_entry o ks : T o = Some ks -> exists s, lookup TL o = Some (s, ks) /\ name_of TL o = Some s.
+Proof.
+  unfold T, table_of, name_of. destruct (lookup TL o) as [[s ks']|] eqn:E; [|discriminate].
+  intros H; inversion H; subst. exists s. split; reflexivity.
+Qed.
+
+Lemma comment_op_kinds o ks : T o = Some ks -> comment_op o = true -> ks = [KU32].
+Proof.
+  intros HT Hc. destruct (table_entry o ks HT) as [s [El _]]. apply lookup_in in El.
+  unfold comment_ops_ok in Hcmt. rewrite forallb_forall in Hcmt. specialize (Hcmt _ El). cbn [fst snd] in Hcmt.
+  rewrite Hc in Hcmt. destruct ks as [|[] [|? ?]]; try discriminate; reflexivity.
+Qed.
+
+(* ---------------------------------------------------------------- character classes *)
 (* ---------------------------------------------------------------- operand text *)
-Definition lbl_idx (L : list N) (t : N) : N := match index_of t L 0 with Some i => i | None => 0 end.
 Definition arg_text (L : list N) (pos : N) (k : okind) (v : N) : text :=
   match k with
   | KU8 | KU16 | KU32 => print_dec v
@@ -175,20 +239,6 @@ Fixpoint args_ok (L : list N) (pos : N) (ks : list okind) (vs : list N) : Prop :
   | [], [] => True
   | k :: ks', v :: vs' => arg_ok L pos k v /\ args_ok L pos ks' vs'
   | _, _ => False end.
-
-Lemma mem_index t : forall L i, mem_N t L = true -> exists j, index_of t L i = Some j.
-Proof.
-  induction L as [|y L IH]; intros i H; [discriminate|]. cbn [mem_N index_of] in *.
-  destruct (t =? y); [eexists; reflexivity|]. apply IH. exact H.
-Qed.
-
-Lemma index_of_bound t : forall L i j, index_of t L i = Some j -> j < i + lenN L.
-Proof.
-  induction L as [|y L IH]; intros i j H; [discriminate|]. cbn [index_of] in H. rewrite lenN_cons.
-  destruct (t =? y); [inversion H; lia|]. apply IH in H. lia.
-Qed.
-Lemma lbl_idx_bound L t : lbl_idx L t < 1 + lenN L.
-Proof. unfold lbl_idx. destruct (index_of t L 0) eqn:E; [apply index_of_bound in E; lia|lia]. Qed.
 
 Lemma arg_text_plain L pos k v : arg_ok L pos k v ->
   Forall (fun c => plain_char c = true) (arg_text L pos k v) /\ arg_text L pos k v <> [] /\
@@ -261,35 +311,6 @@ Proof.
 Qed.
 
 (* ---------------------------------------------------------------- assembling operands *)
-Definition zenc1 (k : okind) (v : N) : list byte := if okind_eqb k KI32 then [0; 0; 0; 0] else le_bytes (ksize k) v.
-Fixpoint zenc (ks : list okind) (vs : list N) : list byte :=
-  match ks, vs with k :: ks', v :: vs' => zenc1 k v ++ zenc ks' vs' | _, _ => [] end.
-Definition patch1 (L : list N) (cur start off : N) (k : okind) (v : N) : list patch :=
-  if okind_eqb k KI32
-  then [{| p_label := label_name (lbl_idx L (u32 (start + v))); p_code_off := off; p_start := start; p_fn := cur |}]
-  else [].
-Fixpoint mk_patches (L : list N) (cur start off : N) (ks : list okind) (vs : list N) : list patch :=
-  match ks, vs with
-  | k :: ks', v :: vs' => patch1 L cur start off k v ++ mk_patches L cur start (off + N.of_nat (ksize k)) ks' vs'
-  | _, _ => [] end.
-
-Lemma zenc1_len k v : lenN (zenc1 k v) = N.of_nat (ksize k).
-Proof. unfold zenc1, lenN. destruct k; cbn [okind_eqb]; rewrite ?le_bytes_length; reflexivity. Qed.
-
-Lemma parse_unsigned_dec hi v rest : stops rest -> (Z.of_N v <= hi)%Z -> v < 9223372036854775808 ->
-  parse_unsigned hi (32 :: print_dec v ++ rest) = Some (v, rest).
-Proof.
-  intros Hs Hhi Hv. unfold parse_unsigned, parse_range, parse_int64. rewrite skip_ws_sp.
-  pose proof (print_dec_nonempty v) as Ne. pose proof (print_dec_all_digits v) as F.
-  destruct (print_dec v) as [|c r] eqn:E; [congruence|]. inversion F; subst.
-  cbn [app]. rewrite skip_ws_cons by (apply plain_facts, dec_char_plain; assumption).
-  change (c :: r ++ rest) with ((c :: r) ++ rest). rewrite <- E, strtoll_print_dec by assumption.
-  destruct (Z.ltb_spec (Z.of_N v) 0); [lia|]. destruct (Z.ltb_spec hi (Z.of_N v)); [lia|]. cbn [orb]. rewrite N2Z.id. reflexivity.
-Qed.
-
-Lemma pow256 k : 256 ^ N.of_nat (ksize k) = match k with KU8 => 256 | KU16 => 65536 | KU32 | KI32 => 4294967296 | KI64 | KF64 => 18446744073709551616 end.
-Proof. destruct k; reflexivity. Qed.
-
 Lemma asm_operand_ok st L k v rest start :
   arg_ok L start k v -> stops rest -> lenN L <= max_disasm_labels ->
   (k = KI32 -> lenN (a_patches st) < max_patches) ->
@@ -326,11 +347,6 @@ Proof.
     rewrite skip_ws_cons by (apply plain_facts; assumption).
     change (c :: r ++ rest) with ((c :: r) ++ rest). rewrite Hparse by exact Hs. rewrite emit_upd. reflexivity.
 Qed.
-
-Lemma count_i32_cons k ks : count_i32 (k :: ks) = (if okind_eqb k KI32 then 1 else 0) + count_i32 ks.
-Proof. unfold count_i32. cbn [filter]. destruct (okind_eqb k KI32); [rewrite lenN_cons|]; lia. Qed.
-Lemma patch1_len L cur start off k v : lenN (patch1 L cur start off k v) = if okind_eqb k KI32 then 1 else 0.
-Proof. unfold patch1. destruct (okind_eqb k KI32); reflexivity. Qed.
 
 Lemma asm_operands_ok L start ks : forall vs st,
   args_ok L start ks vs -> lenN L <= max_disasm_labels ->
@@ -410,9 +426,6 @@ Proof.
     unfold instr_line. rewrite (kinds_of_T _ _ HT). rewrite fmt_operands_plain by assumption. reflexivity.
 Qed.
 
-Lemma starts_cons_ne c x r : x <> c -> starts c (x :: r) = None.
-Proof. intros H. unfold starts. destruct (N.eqb_spec x c); [contradiction|reflexivity]. Qed.
-
 Lemma args_text_not_colon L pos ks vs : args_ok L pos ks vs -> starts 58 (skip_ws (args_text L pos ks vs)) = None.
 Proof.
   destruct ks as [|k ks], vs as [|v vs]; cbn [args_ok args_text]; try tauto; try reflexivity.
@@ -455,10 +468,6 @@ Proof.
 Qed.
 
 (* ---------------------------------------------------------------- a label line *)
-Definition with_label (st : astate) (idx : N) : astate :=
-  {| a_mod := a_mod st; a_labels := a_labels st ++ [{| l_name := label_name idx; l_off := a_size st; l_fn := a_cur st |}];
-     a_patches := a_patches st; a_in_fn := a_in_fn st; a_cur := a_cur st; a_rcode := a_rcode st; a_size := a_size st |}.
-
 Lemma process_label st idx :
   a_in_fn st = true -> idx < 4294967296 -> lenN (a_labels st) < max_labels ->
   find_label (a_labels st) (label_name idx) (a_cur st) = None ->
